@@ -2,10 +2,19 @@
 for tile addresses, reals for map limits)."""
 from engine import symex
 from engine.symex import AND, OR, NOT, IMPLIES, ITE, assume, int_var, real_var, concretize, SymInt
-from engine.e1 import Harness, run_ob, replay, spec  # noqa
+from engine.e1 import Harness, run_ob, replay as e1_replay, spec  # noqa
+from engine import crosshair_runner
+from engine.crosshair_runner import run_ch  # noqa
 from props import common, tilesvc
 
 MOD = 'props.C16_refuse'
+CH = 'props/ch/c16_dims.py'
+
+
+def replay(body):
+    if 'file' in body.get('args', {}):
+        return crosshair_runner.replay(body)
+    return e1_replay(body)
 
 
 class TileAddr(Harness):
@@ -307,6 +316,14 @@ def obligations(tier, seed):
     for limit in ((4000 * 4000, 40000, 1) if tier == 'thorough' else (4000 * 4000, 40000)):
         specs.append(spec(MOD, 'PixelLimit', 'wms-pixel-limit/%d' % limit, cfg=dict(limit=limit), cost=3))
     specs.append(spec(MOD, 'PixelLimit', 'twin/PixelLimit', kind='witness', cfg=dict(limit=40000)))
+    # the dimension check over an arbitrary request string (E2)
+    to = 300 if tier == 'thorough' else 120
+    specs.append(crosshair_runner.spec(MOD, CH, 'dimension_value_is_offered_or_refused', 'dimension-value/any-string-up-to-5-chars', timeout=to, cost=to,
+                                       functions=['TileLayer.checked_dimensions']))
+    specs.append(crosshair_runner.spec(MOD, CH, 'twin_dimension_value', 'twin/dimension-value', kind='witness', timeout=60))
+    specs.append(crosshair_runner.spec(MOD, CH, 'dimension_value_is_offered_or_refused', 'canary/dimension value accepted by prefix', kind='canary', timeout=120, cost=30,
+                                       patches={'mapproxy.service.tile': [["            if value in values:\n                dimensions[dimension] = value\n",
+                                                                           "            if value and any(v.startswith(value) for v in values):\n                dimensions[dimension] = value\n"]]}))
     twins = dict(TileAddr=dict(grid='utm_ul', origin='nw', use_profiles=False),
                  Render=dict(grid='merc_ll', origin='sw', use_profiles=True, format='png', dims={}),
                  TileLimit=dict(grid='utm_ll', level=3, size=[600, 500], limit=6))
